@@ -1,7 +1,7 @@
 From Coq Require Import List NArith ZArith Bool.
 From SK Require Import lib.LGraph lib.Mono.
 From SK Require model.C06_Model model.C11_Model.
-From SK Require Import model.C03_Model model.C05_Model proof.C05_Proof proof.C05_Glue proof.C05_Pipe proof.C05_Prep proof.C05_Comp proof.C05_Main.
+From SK Require Import model.C03_Model model.C05_Model proof.C05_Proof proof.C05_Glue proof.C05_Pipe proof.C05_Prep proof.C05_Comp proof.C05_Main proof.C05_Order.
 From SK Require proof.C11_Dedup.
 Import ListNotations.
 
@@ -135,3 +135,17 @@ Proof.
   - eapply pipeline_relabel_any; eassumption.
 Qed.
 Print Assumptions C05_pipeline_invariant_partial.
+
+(** 2'. Insertion order.  [same_graph g g'] : the same node ids, labels and adjacency, whatever the insertion order of
+    nodes and bonds and the orientation of the stored bonds (what a SMILES rewriting changes besides the numbering).
+    The SET of raw matches of the exhaustive strategy does not depend on it; with 2(b): under an arbitrary rewriting
+    (renumbering pi, then any reordering) every raw match is transported to a raw match of the rewritten substrate.
+    (Pattern-side reordering and the other strategies: not proved, see 5b.) *)
+Theorem C05_matches_order_independent :
+  (forall (host host' : hostg) (pat : molg), same_graph host host' ->
+     forall m, In m (matches 0%N host pat) <-> In m (matches 0%N host' pat)) /\
+  (forall (sg pi : N -> N), inj sg -> inj pi ->
+   forall (host host' : hostg) (pat : molg), same_graph (relabel pi host) host' ->
+     forall m, In m (matches 0%N host pat) -> In (mv sg pi m) (matches 0%N host' (relabel sg pat))).
+Proof. split; [exact matches_all_host_order | exact matches_all_rewriting]. Qed.
+Print Assumptions C05_matches_order_independent.
